@@ -7,7 +7,7 @@
     token-soup inputs (lib/props/c16.py); the stages after reading (normalisation, balance, formatters) are
     total functions in the model, their panic sites in the code are enumerated and fuzzed by the check. *)
 From Coq Require Import String List.
-From Cteepbd Require Import Model.Types Model.Parse Proofs.ParseFacts.
+From Cteepbd Require Import Model.Types Model.Parse Proofs.ParseFacts Proofs.DataEquiv Proofs.WfFacts.
 Import ListNotations. Open Scope list_scope.
 
 Theorem C16_components_reader_never_panics : forall s : str, parse_components s <> PPanic.
@@ -15,6 +15,14 @@ Proof. exact parse_components_no_panic. Qed.
 
 Theorem C16_factors_reader_never_panics : forall s : str, parse_factors s <> PPanic.
 Proof. exact parse_factors_no_panic. Qed.
+
+(** whatever the reader accepts has one number of steps for all its components, completed and re-assigned ones included:
+    the length assertions of the vector helpers (src/vecops.rs) are met by every component set that comes from a file *)
+Theorem C16_accepted_components_have_one_length : forall (s : str) (c : Components), parse_components s = POk c -> exists n, wf n (c_data c).
+Proof. exact parse_components_uniform. Qed.
+
+Theorem C16_normalisation_keeps_the_length : forall n data d, wf n data -> Components.normalize_data data = Ok d -> wf n d.
+Proof. exact normalize_wf. Qed.
 
 (** the record readers, on any line *)
 Theorem C16_line_readers_never_panic :
@@ -43,4 +51,6 @@ Proof. repeat split; try (vm_compute; reflexivity). eexists. vm_compute. reflexi
 Print Assumptions C16_components_reader_never_panics.
 Print Assumptions C16_factors_reader_never_panics.
 Print Assumptions C16_line_readers_never_panic.
+Print Assumptions C16_accepted_components_have_one_length.
+Print Assumptions C16_normalisation_keeps_the_length.
 Print Assumptions C16_meta_reader_guarded.
